@@ -80,162 +80,354 @@ func (p *pkgSrc) fieldType(t, f string) string {
 	return ""
 }
 
-// mergeStanzas evaluates a merge function with parameters (base, override) and a local `merged` symbolically, field
-// by field: the statements it understands are
-//     merged.F = base.F            merged.F = override.F
-//     if override.F != nil { ... } [else if base.F != nil { ... }] [else { ... }]      (and the same with base first)
-// over assignments of the first two kinds for the same field F.  A field counts as merged when, for each of the four
-// combinations of base.F / override.F being nil or not, merged.F ends up as override.F if that is not nil, else as
-// base.F.  The fields merged are returned in the order of their first mention.  Anything else that touches merged
-// makes the function untranslatable.
+// mergeStanzas evaluates a merge function symbolically. Its first parameter is the base, the second the override;
+// the analysis is for both being non-nil (the guards `if base == nil { return override }` are skipped). Every field of
+// both is, independently, nil or set: four worlds. The function body is interpreted in each world over values that are
+// nil, "the base's F" or "the override's F":
+//     x := expr, x = expr, m := &T{...}, m.F = expr, if cond {...} else {...}, return
+//     expr:  nil | base.F | override.F | m.F | x | g(expr...) for a function g of the package (also generic) whose
+//            body is made of ifs over `p != nil` / `p == nil` and returns of its parameters or nil
+//     cond:  expr != nil | expr == nil | !c | c && c | c || c
+// The result object is the local that holds the &T{} literal. A field F counts as merged when, in every world, the
+// result's F is override.F if that is set, else base.F if that is set, else nil - and no condition on the way to an
+// assignment of F looked at another field. Fields are returned in the order of their first assignment. Anything the
+// interpreter does not understand makes the function untranslatable.
+type sval struct {
+	src   int // 0 nil, 1 base, 2 override
+	field string
+}
+
+type mergeInterp struct {
+	p          *pkgSrc
+	fn         string
+	base, over string
+	merged     string
+	ovSet      bool
+	baseSet    bool
+	vars       map[string]sval
+	result     map[string]sval
+	order      *[]string
+	cross      *[]string
+}
+
+func (m *mergeInterp) eval(e ast.Expr, vars map[string]sval, top bool, fields map[string]bool) (sval, error) {
+	switch x := e.(type) {
+	case *ast.ParenExpr:
+		return m.eval(x.X, vars, top, fields)
+	case *ast.Ident:
+		if x.Name == "nil" {
+			return sval{}, nil
+		}
+		if v, ok := vars[x.Name]; ok {
+			if v.field != "" {
+				fields[v.field] = true
+			}
+			return v, nil
+		}
+		return sval{}, fmt.Errorf("%s: value of %s unknown", m.fn, x.Name)
+	case *ast.SelectorExpr:
+		id, ok := x.X.(*ast.Ident)
+		if !ok || !top {
+			return sval{}, fmt.Errorf("%s: unrecognised expression", m.fn)
+		}
+		f := x.Sel.Name
+		fields[f] = true
+		switch id.Name {
+		case m.base:
+			if m.baseSet {
+				return sval{1, f}, nil
+			}
+			return sval{}, nil
+		case m.over:
+			if m.ovSet {
+				return sval{2, f}, nil
+			}
+			return sval{}, nil
+		case m.merged:
+			return m.result[f], nil
+		}
+		return sval{}, fmt.Errorf("%s: field of %s read", m.fn, id.Name)
+	case *ast.CallExpr:
+		fun := x.Fun
+		if ie, ok := fun.(*ast.IndexExpr); ok { // explicit instantiation g[T](...)
+			fun = ie.X
+		}
+		id, ok := fun.(*ast.Ident)
+		if !ok {
+			return sval{}, fmt.Errorf("%s: call of something that is not a function of the package", m.fn)
+		}
+		g := m.p.funcDecl("", id.Name)
+		if g == nil || g.Body == nil || g.Recv != nil {
+			return sval{}, fmt.Errorf("%s: call of %s, which is not a function of the package", m.fn, id.Name)
+		}
+		var names []string
+		for _, prm := range g.Type.Params.List {
+			for _, n := range prm.Names {
+				names = append(names, n.Name)
+			}
+		}
+		if len(names) != len(x.Args) {
+			return sval{}, fmt.Errorf("%s: call of %s with %d arguments", m.fn, id.Name, len(x.Args))
+		}
+		local := map[string]sval{}
+		for i, a := range x.Args {
+			v, err := m.eval(a, vars, top, fields)
+			if err != nil {
+				return sval{}, err
+			}
+			local[names[i]] = v
+		}
+		ret, returned, err := m.exec(g.Body.List, local, false, fields)
+		if err != nil {
+			return sval{}, err
+		}
+		if !returned {
+			return sval{}, fmt.Errorf("%s: %s does not return on every path", m.fn, id.Name)
+		}
+		return ret, nil
+	}
+	return sval{}, fmt.Errorf("%s: unrecognised expression", m.fn)
+}
+
+func (m *mergeInterp) cond(e ast.Expr, vars map[string]sval, top bool, fields map[string]bool) (bool, error) {
+	switch x := e.(type) {
+	case *ast.ParenExpr:
+		return m.cond(x.X, vars, top, fields)
+	case *ast.UnaryExpr:
+		if x.Op == token.NOT {
+			c, err := m.cond(x.X, vars, top, fields)
+			return !c, err
+		}
+	case *ast.BinaryExpr:
+		switch x.Op {
+		case token.LAND, token.LOR:
+			a, err := m.cond(x.X, vars, top, fields)
+			if err != nil {
+				return false, err
+			}
+			b, err := m.cond(x.Y, vars, top, fields)
+			if err != nil {
+				return false, err
+			}
+			if x.Op == token.LAND {
+				return a && b, nil
+			}
+			return a || b, nil
+		case token.NEQ, token.EQL:
+			l, r := x.X, x.Y
+			if id, ok := l.(*ast.Ident); ok && id.Name == "nil" {
+				l, r = r, l
+			}
+			if id, ok := r.(*ast.Ident); !ok || id.Name != "nil" {
+				break
+			}
+			// the parameters themselves are not nil in this analysis
+			if id, ok := l.(*ast.Ident); ok && top && (id.Name == m.base || id.Name == m.over) {
+				return x.Op == token.NEQ, nil
+			}
+			v, err := m.eval(l, vars, top, fields)
+			if err != nil {
+				return false, err
+			}
+			return (v.src != 0) == (x.Op == token.NEQ), nil
+		}
+	}
+	return false, fmt.Errorf("%s: unrecognised condition", m.fn)
+}
+
+// exec runs statements; top = the body of the merge function itself (fields of base/override/merged are visible).
+// pathFields: the fields that conditions on the way here looked at.
+func (m *mergeInterp) exec(list []ast.Stmt, vars map[string]sval, top bool, pathFields map[string]bool) (sval, bool, error) {
+	for _, st := range list {
+		switch s := st.(type) {
+		case *ast.DeclStmt:
+			continue
+		case *ast.AssignStmt:
+			if len(s.Lhs) != 1 || len(s.Rhs) != 1 {
+				return sval{}, false, fmt.Errorf("%s: unrecognised assignment", m.fn)
+			}
+			switch l := s.Lhs[0].(type) {
+			case *ast.Ident:
+				// the result object: m := &T{...}
+				if ue, ok := s.Rhs[0].(*ast.UnaryExpr); ok && ue.Op == token.AND && top {
+					cl, ok := ue.X.(*ast.CompositeLit)
+					if !ok {
+						return sval{}, false, fmt.Errorf("%s: unrecognised assignment", m.fn)
+					}
+					if m.merged != "" && m.merged != l.Name {
+						return sval{}, false, fmt.Errorf("%s: two result objects", m.fn)
+					}
+					if len(pathFields) > 0 {
+						return sval{}, false, fmt.Errorf("merged is replaced under a condition in %s", m.fn)
+					}
+					m.merged = l.Name
+					m.result = map[string]sval{}
+					for _, el := range cl.Elts {
+						kv, ok := el.(*ast.KeyValueExpr)
+						if !ok {
+							return sval{}, false, fmt.Errorf("%s: result literal without field names", m.fn)
+						}
+						k, ok := kv.Key.(*ast.Ident)
+						if !ok {
+							return sval{}, false, fmt.Errorf("%s: result literal without field names", m.fn)
+						}
+						if err := m.assign(k.Name, kv.Value, vars, pathFields); err != nil {
+							return sval{}, false, err
+						}
+					}
+					continue
+				}
+				fs := map[string]bool{}
+				v, err := m.eval(s.Rhs[0], vars, top, fs)
+				if err != nil {
+					return sval{}, false, err
+				}
+				vars[l.Name] = v
+			case *ast.SelectorExpr:
+				id, ok := l.X.(*ast.Ident)
+				if !ok || !top || id.Name != m.merged || m.merged == "" {
+					return sval{}, false, fmt.Errorf("unrecognised assignment in %s", m.fn)
+				}
+				if err := m.assign(l.Sel.Name, s.Rhs[0], vars, pathFields); err != nil {
+					return sval{}, false, err
+				}
+			default:
+				return sval{}, false, fmt.Errorf("unrecognised assignment in %s", m.fn)
+			}
+		case *ast.IfStmt:
+			if s.Init != nil {
+				return sval{}, false, fmt.Errorf("unrecognised if statement in %s", m.fn)
+			}
+			fs := map[string]bool{}
+			for k := range pathFields {
+				fs[k] = true
+			}
+			c, err := m.cond(s.Cond, vars, top, fs)
+			if err != nil {
+				return sval{}, false, err
+			}
+			var branch []ast.Stmt
+			if c {
+				branch = s.Body.List
+			} else {
+				switch e := s.Else.(type) {
+				case *ast.BlockStmt:
+					branch = e.List
+				case *ast.IfStmt:
+					branch = []ast.Stmt{e}
+				}
+			}
+			// the other branch is checked for shape in the world where it is taken
+			v, ret, err := m.exec(branch, vars, top, fs)
+			if err != nil || ret {
+				return v, ret, err
+			}
+		case *ast.ReturnStmt:
+			if top {
+				return sval{}, true, nil
+			}
+			if len(s.Results) != 1 {
+				return sval{}, false, fmt.Errorf("%s: helper returns %d values", m.fn, len(s.Results))
+			}
+			v, err := m.eval(s.Results[0], vars, top, pathFields)
+			return v, true, err
+		case *ast.BlockStmt:
+			v, ret, err := m.exec(s.List, vars, top, pathFields)
+			if err != nil || ret {
+				return v, ret, err
+			}
+		default:
+			return sval{}, false, fmt.Errorf("unrecognised statement in %s", m.fn)
+		}
+	}
+	return sval{}, false, nil
+}
+
+func (m *mergeInterp) assign(f string, rhs ast.Expr, vars map[string]sval, pathFields map[string]bool) error {
+	fs := map[string]bool{}
+	for k := range pathFields {
+		fs[k] = true
+	}
+	v, err := m.eval(rhs, vars, true, fs)
+	if err != nil {
+		return err
+	}
+	if v.src != 0 && v.field != f {
+		return fmt.Errorf("merged.%s is assigned something else than base.%s / override.%s in %s", f, f, f, m.fn)
+	}
+	for g := range fs {
+		if g != f {
+			*m.cross = append(*m.cross, fmt.Sprintf("the stanza for %s in %s looks at %s", f, m.fn, g))
+		}
+	}
+	seen := false
+	for _, o := range *m.order {
+		if o == f {
+			seen = true
+		}
+	}
+	if !seen {
+		*m.order = append(*m.order, f)
+	}
+	m.result[f] = v
+	return nil
+}
+
+var mergePkg *pkgSrc
+
 func mergeStanzas(fd *ast.FuncDecl) ([]string, error) {
 	if fd == nil || fd.Body == nil {
 		return nil, fmt.Errorf("function not found")
 	}
-	type world struct{ ovSet, baseSet bool }
-	worlds := []world{{false, false}, {false, true}, {true, false}, {true, true}}
-	// value of merged.F in a world: 0 nil, 1 base.F, 2 override.F
-	state := map[string][4]int{}
-	var order []string
-	touch := func(f string) {
-		if _, ok := state[f]; !ok {
-			state[f] = [4]int{}
-			order = append(order, f)
+	var params []string
+	for _, prm := range fd.Type.Params.List {
+		for _, n := range prm.Names {
+			params = append(params, n.Name)
 		}
 	}
-	selOf := func(e ast.Expr) (x, f string, ok bool) {
-		s, isSel := e.(*ast.SelectorExpr)
-		if !isSel {
-			return "", "", false
-		}
-		id, isID := s.X.(*ast.Ident)
-		if !isID {
-			return "", "", false
-		}
-		return id.Name, s.Sel.Name, true
+	if len(params) != 2 {
+		return nil, fmt.Errorf("%s does not take (base, override)", fd.Name.Name)
 	}
-	// cond: X.F != nil  /  X.F == nil
-	condOf := func(e ast.Expr) (x, f string, neg bool, ok bool) {
-		be, isBin := e.(*ast.BinaryExpr)
-		if !isBin || (be.Op != token.NEQ && be.Op != token.EQL) {
-			return "", "", false, false
+	var order, cross []string
+	worlds := [][2]bool{{false, false}, {false, true}, {true, false}, {true, true}}
+	// first pass: shape errors, and the fields assigned in any world (in the order of their first assignment)
+	for _, w := range worlds {
+		m := &mergeInterp{p: mergePkg, fn: fd.Name.Name, base: params[0], over: params[1], ovSet: w[0], baseSet: w[1], order: &order, cross: &cross}
+		if _, _, err := m.exec(fd.Body.List, map[string]sval{}, true, map[string]bool{}); err != nil {
+			return nil, err
 		}
-		if id, isNil := be.Y.(*ast.Ident); !isNil || id.Name != "nil" {
-			return "", "", false, false
+		if m.merged == "" {
+			return nil, fmt.Errorf("%s builds no result object", fd.Name.Name)
 		}
-		x, f, ok = selOf(be.X)
-		if !ok || (x != "base" && x != "override") {
-			return "", "", false, false
-		}
-		return x, f, be.Op == token.EQL, true
 	}
-	var exec func(list []ast.Stmt, active [4]bool, field string) error
-	exec = func(list []ast.Stmt, active [4]bool, field string) error {
-		for _, st := range list {
-			switch s := st.(type) {
-			case *ast.AssignStmt:
-				if len(s.Lhs) != 1 || len(s.Rhs) != 1 {
-					return fmt.Errorf("unrecognised assignment in %s", fd.Name.Name)
-				}
-				if id, ok := s.Lhs[0].(*ast.Ident); ok && id.Name == "merged" {
-					if field != "" {
-						return fmt.Errorf("merged is replaced under a condition in %s", fd.Name.Name)
-					}
-					continue // merged := &T{}
-				}
-				x, f, ok := selOf(s.Lhs[0])
-				if !ok || x != "merged" {
-					return fmt.Errorf("unrecognised assignment in %s", fd.Name.Name)
-				}
-				if field != "" && f != field {
-					return fmt.Errorf("the stanza for %s in %s assigns %s", field, fd.Name.Name, f)
-				}
-				rx, rf, ok := selOf(s.Rhs[0])
-				if !ok || rf != f || (rx != "base" && rx != "override") {
-					return fmt.Errorf("merged.%s is assigned something else than base.%s / override.%s in %s", f, f, f, fd.Name.Name)
-				}
-				touch(f)
-				v := state[f]
-				for w := range worlds {
-					if !active[w] {
-						continue
-					}
-					switch {
-					case rx == "base" && worlds[w].baseSet:
-						v[w] = 1
-					case rx == "override" && worlds[w].ovSet:
-						v[w] = 2
-					default:
-						v[w] = 0
-					}
-				}
-				state[f] = v
-			case *ast.IfStmt:
-				x, f, neg, ok := condOf(s.Cond)
-				if !ok || s.Init != nil {
-					// the leading nil guards: if base == nil { return override } / if override == nil { return base }
-					if be, isBin := s.Cond.(*ast.BinaryExpr); isBin && be.Op == token.EQL && field == "" {
-						if _, isID := be.X.(*ast.Ident); isID {
-							continue
-						}
-					}
-					return fmt.Errorf("unrecognised if statement in %s", fd.Name.Name)
-				}
-				if field != "" && f != field {
-					return fmt.Errorf("the stanza for %s in %s tests %s", field, fd.Name.Name, f)
-				}
-				touch(f)
-				var thenW, elseW [4]bool
-				for w := range worlds {
-					set := worlds[w].baseSet
-					if x == "override" {
-						set = worlds[w].ovSet
-					}
-					holds := set != neg
-					thenW[w] = active[w] && holds
-					elseW[w] = active[w] && !holds
-				}
-				if err := exec(s.Body.List, thenW, f); err != nil {
-					return err
-				}
-				switch e := s.Else.(type) {
-				case nil:
-				case *ast.BlockStmt:
-					if err := exec(e.List, elseW, f); err != nil {
-						return err
-					}
-				case *ast.IfStmt:
-					if err := exec([]ast.Stmt{e}, elseW, f); err != nil {
-						return err
-					}
-				}
-			case *ast.ReturnStmt:
-				continue
-			default:
-				return fmt.Errorf("unrecognised statement in %s", fd.Name.Name)
+	if len(cross) > 0 {
+		return nil, fmt.Errorf("%s", cross[0])
+	}
+	// second pass: a field is merged when the result is right in every world
+	good := map[string]bool{}
+	for _, f := range order {
+		good[f] = true
+	}
+	for _, w := range worlds {
+		m := &mergeInterp{p: mergePkg, fn: fd.Name.Name, base: params[0], over: params[1], ovSet: w[0], baseSet: w[1], order: &order, cross: &cross}
+		if _, _, err := m.exec(fd.Body.List, map[string]sval{}, true, map[string]bool{}); err != nil {
+			return nil, err
+		}
+		for _, f := range order {
+			want := sval{}
+			if w[0] {
+				want = sval{2, f}
+			} else if w[1] {
+				want = sval{1, f}
+			}
+			if m.result[f] != want {
+				good[f] = false
 			}
 		}
-		return nil
-	}
-	if err := exec(fd.Body.List, [4]bool{true, true, true, true}, ""); err != nil {
-		return nil, err
 	}
 	var out []string
 	for _, f := range order {
-		v := state[f]
-		good := true
-		for w := range worlds {
-			want := 0
-			if worlds[w].ovSet {
-				want = 2
-			} else if worlds[w].baseSet {
-				want = 1
-			}
-			if v[w] != want {
-				good = false
-			}
-		}
-		if good {
+		if good[f] {
 			out = append(out, f)
 		}
 	}
@@ -247,6 +439,7 @@ func genStyleFields(repo string) (string, error) {
 	if err != nil {
 		return "", err
 	}
+	mergePkg = p
 	var b strings.Builder
 	b.WriteString("From Coq Require Import List String.\nImport ListNotations.\nOpen Scope string_scope.\n\n")
 	for _, x := range []struct{ typ, fn, name string }{{"ParagraphProperties", "mergeParagraphProperties", "ppr"}, {"RunProperties", "mergeRunProperties", "rpr"}} {
@@ -261,18 +454,44 @@ func genStyleFields(repo string) (string, error) {
 		fmt.Fprintf(&b, "(* style.%s *)\nDefinition %s_fields : list string := %s.\n", x.typ, x.name, coqStringList(fields))
 		fmt.Fprintf(&b, "(* fields handled by %s, in source order *)\nDefinition %s_merged : list string := %s.\n\n", x.fn, x.name, coqStringList(merged))
 	}
-	// GetStyleWithInheritance: the recursion must go through a visited set
-	fd := p.funcDecl("StyleManager", "getStyleWithInheritance")
+	// GetStyleWithInheritance: the recursion must go through a visited set. By shape, not by name: a function reachable
+	// from GetStyleWithInheritance that calls itself, marks an entry of a map or set (X[k] = ...) and tests an entry
+	// of the same X in the condition of an if.
 	guarded := false
-	if fd != nil {
-		ast.Inspect(fd, func(n ast.Node) bool {
-			if ie, ok := n.(*ast.IndexExpr); ok {
-				if id, ok := ie.X.(*ast.Ident); ok && id.Name == "visiting" {
-					guarded = true
+	for _, g := range reachFuncs(p, p.funcDecl("StyleManager", "GetStyleWithInheritance"), 3, map[string]bool{}) {
+		recursive := false
+		marked := map[string]bool{}
+		tested := map[string]bool{}
+		ast.Inspect(g.Body, func(n ast.Node) bool {
+			switch x := n.(type) {
+			case *ast.CallExpr:
+				switch f := x.Fun.(type) {
+				case *ast.Ident:
+					recursive = recursive || f.Name == g.Name.Name
+				case *ast.SelectorExpr:
+					recursive = recursive || f.Sel.Name == g.Name.Name
 				}
+			case *ast.AssignStmt:
+				for _, l := range x.Lhs {
+					if ie, ok := l.(*ast.IndexExpr); ok {
+						marked[exprStringDeep(ie.X)] = true
+					}
+				}
+			case *ast.IfStmt:
+				ast.Inspect(x.Cond, func(c ast.Node) bool {
+					if ie, ok := c.(*ast.IndexExpr); ok {
+						tested[exprStringDeep(ie.X)] = true
+					}
+					return true
+				})
 			}
 			return true
 		})
+		for k := range marked {
+			if recursive && tested[k] && k != "?" {
+				guarded = true
+			}
+		}
 	}
 	fmt.Fprintf(&b, "(* the based-on recursion consults a visited set *)\nDefinition resolve_has_visited_set : bool := %v.\n", guarded)
 	return b.String(), nil
